@@ -40,9 +40,11 @@ type GenKnobs struct {
 	NodesPerEntity []int  `json:"nodes_per_entity"` // validator nodes per entity
 	Accounts       int    `json:"accounts"`         // plain user accounts
 	EpochInterval  int64  `json:"epoch_interval"`
-	Debonding      uint64 `json:"debonding"`
-	MaxBlockGas    uint64 `json:"max_block_gas"`
-	MinGasPrice    uint64 `json:"min_gas_price"`
+	// BeaconVRF, when set, selects the VRF beacon backend (workload_vrf.go).
+	BeaconVRF   *VRFKnobs `json:"beacon_vrf,omitempty"`
+	Debonding   uint64    `json:"debonding"`
+	MaxBlockGas uint64    `json:"max_block_gas"`
+	MinGasPrice uint64    `json:"min_gas_price"`
 	// Fee split weights (propose, vote, next propose).
 	FeeSplit [3]uint64 `json:"fee_split"`
 	// Rewards.
@@ -485,6 +487,17 @@ func BuildWorld(k GenKnobs) (*World, error) {
 	if k.KeyManager {
 		if err := addGenesisKeyManager(w, doc); err != nil {
 			return nil, err
+		}
+	}
+	if k.BeaconVRF != nil {
+		doc.Beacon.Parameters = beacon.ConsensusParameters{
+			Backend: beacon.BackendVRF,
+			VRFParameters: &beacon.VRFParameters{
+				AlphaHighQualityThreshold: k.BeaconVRF.HQThreshold,
+				Interval:                  k.EpochInterval,
+				ProofSubmissionDelay:      k.BeaconVRF.Delay,
+				GasCosts:                  transaction.Costs{beacon.GasOpVRFProve: transaction.Gas(gb + 61)},
+			},
 		}
 	}
 	w.Doc = doc
